@@ -77,8 +77,9 @@ def run(tier, replay=None):
         f = fields(rng, mask | 32); f["name"] = []; f["comment"] = []; f["extra"] = f["extra"][:5]
         hb = gz_bytes(f) + body; hl = len(hb) - len(body)
         for nbuf in (64, -1, 1):
-            reader(0, hb, [len(hb)], nbuf, nbuf, nbuf, 0, True)
-            for cut in range(1, hl + 1): reader(0, hb, [cut], nbuf, nbuf, nbuf, 0, True)
+            eb = 64 if nbuf == 1 else nbuf          # (1-byte buffers are exactly enough for the empty strings, not for the extra field)
+            reader(0, hb, [len(hb)], nbuf, nbuf, eb, 0, True)
+            for cut in range(1, hl + 1): reader(0, hb, [cut], nbuf, nbuf, eb, 0, True)
     # independent producer (python gzip module)
     for name in ("", "a", "some-file-name.txt"):
         b = io.BytesIO()
